@@ -59,10 +59,14 @@ static int was_true[MAXH];
 static unsigned open_mask; static int nsections;
 static unsigned long lastcur[32];	/* current_state seen at this thread's last unlock of poll.lock */
 static int gp_waiting;			/* the helper is blocked in (or about to enter) FUTEX_WAIT on rcu_gp.futex */
+static int cr_waiting;			/* the helper is blocked in (or about to enter) FUTEX_WAIT on its own call_rcu futex */
+static int pl_held;			/* poll.lock is held (tracked by the interposed lock/unlock) */
+static struct call_rcu_data *the_crdp;
 
 /* ------------------------------------------------------------------ script gating (spec -> code) */
 struct sent { char t[16]; char k[8]; int done; };
 static struct sent *S; static int ns, sp; static int script_abandoned; static int rend_waiters;
+static int h1_at_gate;
 static int jump_pending;		/* a reader was let through to release the grace period; wait for the helper to resume */
 struct gate { const char *t; const char *k; };
 
@@ -72,10 +76,17 @@ static DP_NS int gate_ok(void *a)
 {
 	struct gate *g = a;
 	if (sp >= ns) return 1;
+	/* a reader section begins (rcu_read_lock is called after this gate) only while the helper is at rest -- at its own
+	 * gate, idle, or blocked on another reader -- so that whether the grace period in flight covers the section is decided
+	 * by the script and not by a race with the helper's registry scan */
+	if (!strcmp(g->k, "rbegin") && head_is(g->t, "rbegin")) return h1_at_gate || cr_waiting || gp_waiting;
 	if (head_is(g->t, NULL)) return 1;			/* my turn (a different event of mine: divergence, see gate()) */
 	/* the script waits for the callback while the real grace period waits for a reader: let a reader standing at its
 	 * rend gate go first; if there is none the script cannot be followed */
 	if (gp_waiting && !jump_pending && rcu_gp.futex == -1 && head_is("h1", NULL) && (!strcmp(g->k, "rend") || !rend_waiters)) return 1;
+	/* the script waits for a callback that the real code has not queued (helper idle, queue empty, nobody inside the
+	 * critical section who could queue it): the code has diverged from the script */
+	if (head_is("h1", NULL) && cr_waiting && !pl_held && the_crdp->futex == -1 && the_crdp->cbs_tail.p == &the_crdp->cbs_head.node) return 1;
 	return 0;
 }
 /* returns 1 when the event is the head of the script (the caller pops it after performing the event) */
@@ -84,7 +95,8 @@ static DP_NS int gate(const char *k)
 	struct gate g = { vrt_self_name(), k };
 	if (sp >= ns) return 0;
 	int isrend = !strcmp(k, "rend");
-	rend_waiters += isrend; vrt_wait_until(gate_ok, &g); rend_waiters -= isrend;
+	int ish1 = !strcmp(g.t, "h1");
+	rend_waiters += isrend; h1_at_gate += ish1; vrt_wait_until(gate_ok, &g); rend_waiters -= isrend; h1_at_gate -= ish1;
 	if (sp >= ns) return 0;
 	if (head_is(g.t, k)) return 1;
 	if (!head_is(g.t, NULL) && !strcmp(k, "rend")) {
@@ -106,7 +118,7 @@ static DP_NS void pop(int matched) { if (matched && sp < ns) { sp++; script_skip
 static DP_NS int dp_mutex_lock(pthread_mutex_t *m)
 {
 	if (m == &poll_worker_gp_state.lock && vrt_in_model()) {
-		int g = gate("lock"); int r = vrt_mutex_lock(m); pop(g); return r;
+		int g = gate("lock"); int r = vrt_mutex_lock(m); pl_held = 1; pop(g); return r;
 	}
 	return vrt_mutex_lock(m);
 }
@@ -118,6 +130,7 @@ static DP_NS int dp_mutex_unlock(pthread_mutex_t *m)
 		vrt_log("\"op\":\"proj\",\"cur\":%ld,\"latest\":%ld,\"active\":%d", (long) c,
 			(long) poll_worker_gp_state.latest_target.grace_period_id, (int) poll_worker_gp_state.active);
 		int me = vrt_self(); if (me >= 0 && me < 32) lastcur[me] = c;
+		pl_held = 0;
 		int r = vrt_mutex_unlock(m); pop(g); return r;
 	}
 	return vrt_mutex_unlock(m);
@@ -133,6 +146,12 @@ static DP_NS long dp_syscall(long nr, ...)
 		int e = errno; gp_waiting = 0; jump_pending = 0; errno = e;
 		return r;
 	}
+	if (nr == SYS_futex && the_crdp && (int32_t *) a1 == &the_crdp->futex && (int) a2 == FUTEX_WAIT) {
+		cr_waiting = 1;
+		long r = vrt_syscall(nr, a1, a2, a3, a4, a5, a6);
+		int e = errno; cr_waiting = 0; errno = e;
+		return r;
+	}
 	return vrt_syscall(nr, a1, a2, a3, a4, a5, a6);
 }
 /* the unit-included sources reference the compat futex fallbacks (only used when futex() returns ENOSYS) */
@@ -142,7 +161,12 @@ int compat_futex_async(int32_t *uaddr, int op, int32_t val, const struct timespe
 { (void) uaddr; (void) op; (void) val; (void) timeout; (void) uaddr2; (void) val3; vrt_fail("RUNTIME compat futex fallback reached"); }
 
 /* ------------------------------------------------------------------ scenario threads */
-static DP_NS int cur_changed(void *a) { return poll_worker_gp_state.current_state.grace_period_id != *(unsigned long *) a; }
+struct cw { unsigned long seen; const char *t; };
+static DP_NS int cur_changed(void *a)
+{
+	struct cw *c = a;
+	return poll_worker_gp_state.current_state.grace_period_id != c->seen || head_is(c->t, NULL);
+}
 
 static DP_NS bool do_poll(int k)
 {
@@ -179,14 +203,22 @@ static DP_NS void *runner(void *arg)
 			while (!do_poll(k)) {
 				/* re-poll only once current_state differs from what the last poll saw (scheduler-level wait: a handle
 				 * that never completes ends as DEADLOCK) */
-				unsigned long seen = lastcur[vrt_self()];
-				vrt_wait_until(cur_changed, &seen);
+				struct cw c = { lastcur[vrt_self()], vrt_self_name() };
+				vrt_wait_until(cur_changed, &c);
+				if (poll_worker_gp_state.current_state.grace_period_id == c.seen) {
+					/* the script expects an event of this thread although the poll it just made was FALSE and nothing
+					 * changed: the code has diverged from the script; give the script up and keep waiting */
+					vrt_log("\"op\":\"script_div\",\"at\":%d,\"want\":\"%s %s\",\"got\":\"wait\"", sp, S[sp].t, S[sp].k);
+					script_abandoned = 1; sp = ns;
+					vrt_wait_until(cur_changed, &c);
+				}
 			}
 			g = gate("ret"); vrt_log("\"op\":\"ret\",\"api\":\"pollw\",\"r\":\"TRUE\""); pop(g);
 		} else if (!strcmp(o->kind, "rl")) {
 			if (cs >= 0) vrt_fail("SCENARIO nested reader sections are not used");
+			g = gate("rbegin");
 			vrt_op_begin("rcu_read_lock", VP_WAITFREE); rcu_read_lock(); vrt_op_end();
-			g = gate("rbegin"); cs = nsections++; open_mask |= 1u << cs; vrt_log("\"op\":\"rbegin\",\"cs\":%d", cs); pop(g);
+			cs = nsections++; open_mask |= 1u << cs; vrt_log("\"op\":\"rbegin\",\"cs\":%d", cs); pop(g);
 		} else if (!strcmp(o->kind, "ru")) {
 			if (cs < 0) vrt_fail("SCENARIO ru without rl");
 			g = gate("rend"); vrt_log("\"op\":\"rend\",\"cs\":%d", cs); open_mask &= ~(1u << cs); cs = -1; pop(g);
@@ -225,7 +257,7 @@ int main(int argc, char **argv)
 	poll_worker_gp_state.current_state.grace_period_id = (unsigned long) init;
 	poll_worker_gp_state.latest_target.grace_period_id = (unsigned long) init;
 	/* create the default call_rcu helper up front so that its queue can be named (it becomes daemon thread h1) */
-	struct call_rcu_data *crdp = get_default_call_rcu_data();
+	struct call_rcu_data *crdp = get_default_call_rcu_data(); the_crdp = crdp;
 	vrt_name_val(NULL, "NULL");
 	vrt_name(&crdp->cbs_tail.p, VK_PTR, "crq.tail"); vrt_name(&crdp->cbs_head.node.next, VK_PTR, "crq.head.next");
 	vrt_name_val(&crdp->cbs_head.node, "crq.head");
